@@ -10,7 +10,7 @@ BOUNDS = {
              '(inner stack of length 2 at any position); Or over <= 3 branches; Not; Require with item absent / None / present (non-empty, empty containers, falsy scalars) and both defaults; '
              'RunIfOutOfBounds on a 2-security tree with symbolic positions, capital and tolerance and grid targets incl. shorts; Strategy.run twice '
              'on a nested tree with logging algos',
-    'thorough': 'AlgoStack length <= 5, nesting at two positions',
+    'thorough': 'AlgoStack length <= 6 (every return pattern x every run_always marker pattern: 64 x 729 paths at length 6), an inner stack at every position of stacks up to length 5',
 }
 ASSUMPTIONS = ['mock algos return Python bools; falsy non-bool returns are outside the claim']
 
@@ -238,11 +238,11 @@ HARNESSES = {'stack': h_stack, 'flow': h_flow, 'oob': h_oob, 'oob_cash': h_oob_c
 def plan(tier):
     quick = tier == 'quick'
     tasks = []
-    maxlen = 4 if quick else 5
+    maxlen = 4 if quick else 6
     for n in range(1, maxlen + 1):
         tasks.append(dict(harness='stack', cfg=dict(len=n, nest=None), opts=dict(max_paths=200000)))
         for pos in (range(n) if (quick and n <= 3) or not quick else ()):
-            if n <= 4:
+            if n <= (4 if quick else 5):
                 tasks.append(dict(harness='stack', cfg=dict(len=n, nest=pos), opts=dict(max_paths=200000)))
     for k in (1, 2, 3):
         tasks.append(dict(harness='flow', cfg=dict(branches=k)))
